@@ -427,6 +427,42 @@ func runC20(c *Ctx) *Replay {
 			}
 		}
 	}
+	// part 3b: stream and slice readers agree on ARBITRARY bytes (also ones no writer emits,
+	// such as bool bytes other than 0/1)
+	for _, p := range schema.Primitives {
+		if p == "string" {
+			continue
+		}
+		w := schema.PrimSize(p)
+		raw := c.R.Bytes(w)
+		if p == "bool" {
+			raw[0] = byte(c.R.Intn(256))
+		}
+		if p == "date" {
+			raw[7] = byte(int8(raw[7]) >> 6) // keep ticks*100 inside int64
+		}
+		link := simnet.NewLink(raw, simnet.Schedule{Repeat: 1 + c.R.Intn(3)}, nil)
+		er := iohelp.NewErrorReader(struct{ io.Reader }{link})
+		var a, b val.Value
+		cr := safeCall(1<<20, 1<<20, func() {
+			a = readStream(er, p)
+			b, _ = readSlice(c.N.guard.place(raw), p)
+		})
+		c.Count("evaluations", 1)
+		c.Count("raw_agreement", 1)
+		var v *Violation
+		if cr.Panicked {
+			v = &Violation{Class: "panic", Signature: "panic|raw-agreement|" + p, Detail: cr.PanicText()}
+		} else if d := primDiff(p, a, b); d != "" {
+			v = &Violation{Class: "mismatch", Signature: "mismatch|stream-vs-slice|" + p, Detail: fmt.Sprintf("Read%s on the stream and Read%sBytes on the slice disagree on bytes % x: %s", p, p, raw, d)}
+		}
+		if v != nil {
+			sc := Scenario{Kind: "prims", Types: []string{p}, Input: raw, Extra: map[string]string{"probe": "rawagree"}}
+			if rp := c.shrinkAndReport(&sc, v); rp != nil {
+				return rp
+			}
+		}
+	}
 	// part 4: hostile length prefixes on the checked string readers (never out of bounds)
 	for _, pfx := range []uint32{uint32(len(sv.B)) + 1, 1 << 16, 1<<31 - 1, 1 << 31, 0xFFFFFFF0, 0xFFFFFFFB, 0xFFFFFFFC, 0xFFFFFFFD, 0xFFFFFFFE, 0xFFFFFFFF} {
 		for _, shared := range []bool{false, true} {
@@ -467,6 +503,23 @@ func runC20(c *Ctx) *Replay {
 // execPrims runs one primitive stream scenario (and, for the probe form, the string
 // bounds probe).
 func execPrims(n *Node, sc *Scenario) *Violation {
+	if sc.Extra["probe"] == "rawagree" {
+		p := sc.Types[0]
+		link := simnet.NewLink(sc.Input, simnet.Schedule{Repeat: 1}, nil)
+		er := iohelp.NewErrorReader(struct{ io.Reader }{link})
+		var a, b val.Value
+		cr := safeCall(1<<20, 1<<20, func() {
+			a = readStream(er, p)
+			b, _ = readSlice(n.guard.place(sc.Input), p)
+		})
+		if cr.Panicked {
+			return &Violation{Class: "panic", Signature: "panic|raw-agreement|" + p, Detail: cr.PanicText()}
+		}
+		if d := primDiff(p, a, b); d != "" {
+			return &Violation{Class: "mismatch", Signature: "mismatch|stream-vs-slice|" + p, Detail: d}
+		}
+		return nil
+	}
 	if sc.Extra["probe"] == "hostileprefix" {
 		full := primEncode("string", sc.Values[0])
 		var pfx uint32
